@@ -24,7 +24,10 @@ type csEnv struct {
 }
 
 // newCsEnv builds a coinswap keeper over the stubs with symbolic (valid) params.
-func newCsEnv(symbolicParams bool) *csEnv {
+func newCsEnv(symbolicParams bool) *csEnv { return newCsEnvFee(symbolicParams, csStd) }
+
+// newCsEnvFee: the same with the denomination of the pool-creation fee given by the caller
+func newCsEnvFee(symbolicParams bool, feeDenom string) *csEnv {
 	e := &csEnv{vEnv: newVEnv(types.StoreKey, 10, csStd, "btc", "eth")}
 	e.bank.modules[types.ModuleName] = []string{authtypes.Minter, authtypes.Burner}
 	e.bank.modules[csFeeCollector] = nil
@@ -38,7 +41,7 @@ func newCsEnv(symbolicParams bool) *csEnv {
 		p.Fee = verifDec("fee", big.NewInt(0), e18)
 		p.UnilateralLiquidityFee = verifDec("ufee", big.NewInt(0), e18)
 		p.TaxRate = verifDec("tax", big.NewInt(0), e18)
-		p.PoolCreationFee = sdk.Coin{Denom: csStd, Amount: verifIntIn("pcf", big.NewInt(0), verifPow2(128))}
+		p.PoolCreationFee = sdk.Coin{Denom: feeDenom, Amount: verifIntIn("pcf", big.NewInt(0), verifPow2(128))}
 		verifAssume(p.Validate() == nil) // the repository's own validation is the precondition
 	}
 	if err := e.k.SetParams(e.ctx, p); err != nil {
